@@ -6,6 +6,7 @@ from vf.lib import Mon, esc, observe
 from vf.props.c04 import rand_bic
 from vf.ref import data
 from vf.ref import iban as R
+from vf.ref import national as N
 
 META = {
     "level": "exploration",
@@ -103,6 +104,18 @@ def run_iban(shard, mon, S):
                 ob, ov = same_outcome(mon, S.IBAN, b, var, kw, "iban")
             if ob.ok:
                 check_formatted_iban(mon, S, ob.value)
+            # a nationally invalid twin, parsed with default flags first and then - base and variants - with
+            # national validation: all spellings must still be judged alike
+            if i % 4 == 0 and cc in N.CHECK_FIELD and N.LENGTHS.get(cc) == table[cc]["bban_length"]:
+                fb = N.force_valid(cc, bases[i][4:])
+                if fb:
+                    s_, e_ = N.CHECK_FIELD[cc]
+                    kcls = R.position_classes(table[cc]["bban_spec"])[s_]
+                    bad = R.make_iban(cc, fb[:s_] + "".join(kcls[(kcls.index(c) + 1) % len(kcls)] for c in fb[s_:e_]) + fb[e_:])
+                    observe(S.IBAN, bad)
+                    for var in gen.decorate(bad, rng)[:6]:
+                        observe(S.IBAN, var) if rng.random() < 0.3 else None
+                        same_outcome(mon, S.IBAN, bad, var, {"validate_bban": True}, "iban_after_plain_parse")
             # allow_invalid objects normalise the same way
             for var in gen.decorate(b, rng)[:3]:
                 same_outcome(mon, S.IBAN, b, var, {"allow_invalid": True}, "iban_unvalidated")
